@@ -16,6 +16,7 @@ EXPLANATION = (
     "parent=/children= to the setters. E6 a cached children tuple (memo field) is dropped next to every list write (as C01 W9). Checked on all abstract traces of the entry points of both mixins. Not decided: "
     "that the resulting concrete forest equals the specification for every state, termination of the ancestor walk, "
     "which error class wins when several apply."
+    " Added in rounds 16-17: E2 (only-if) a type test that guards a refusal names the node mixins, never type(self) / __class__ (legal trees mix node classes); E5 the materialisation tuple(children) may live in a private helper that obeys the same rule and returns the tuple; E5c the parent may be assigned under `parent is not None` only; W10 as in C01."
 )
 ASSUMPTIONS = [
     "abstract traces: hooks/unknown callees opaque, loops unrolled 0..2",
